@@ -65,6 +65,7 @@ class Contract:
         self.check_pre_when_inlined = True
         self.call_default = instance is None
         self.no_call_summary = False
+        self.never_returns = False
         self.cost_hint = 1
         # labels of `requires` that are global invariants/environment assumptions: assumed at entry, not
         # re-proved at every internal call site (they are proved as postconditions of the public methods)
